@@ -350,6 +350,42 @@ pub fn full_part(shard: usize, nshards: usize) -> Vec<String> {
             all.push(t);
         }
     }
+    // the directed trees of the other checks in text form (twins, sibling pairs, a slice of the
+    // context pairs and of the interaction triples): what is decided there in one build is run
+    // here in both
+    {
+        let mut trees: Vec<crate::tree::E> = crate::combo::concat_twin_trees();
+        trees.extend(crate::combo::escape_twin_trees());
+        trees.extend(crate::combo::sibling_pairs());
+        let ctxs = crate::combo::context_leaves();
+        let subs = crate::combo::supported_kinds();
+        for (i, c) in ctxs.iter().enumerate() {
+            for (j, sb) in subs.iter().enumerate() {
+                if (i * 31 + j * 7) % 8 == 0 {
+                    trees.push(crate::combo::pair_skeleton(i + j, c.clone(), sb.clone()));
+                }
+            }
+        }
+        let kinds = crate::combo::all_kinds();
+        let n = kinds.len();
+        for i in 0..n {
+            for j in 0..n {
+                for k in 0..n {
+                    let h = crate::util::stable_hash(&(i, j, k, 0xc17u16));
+                    if h % 64 == 0 {
+                        trees.push(crate::combo::skeleton((h >> 8) as usize, kinds[i].clone(), kinds[j].clone(), kinds[k].clone()));
+                    }
+                }
+            }
+        }
+        for (i, t) in trees.iter().enumerate() {
+            if i % nshards == shard {
+                if let Some(text) = crate::render::canonical(t) {
+                    all.push(text);
+                }
+            }
+        }
+    }
     // two constructs the target cannot express in one input (which of them the refusal names must
     // not depend on the build): directives before and after \c, unsupported tests and actions
     if shard == 1 % nshards {
